@@ -417,6 +417,7 @@ def directed_cases():
               b"179769313486231580" + b"0" * 291):
         add("timeout:" + t[:24].decode(), b'specification "s" { timeout ' + t + b' script login { send "x" } }\n' + DEVNODE)
         add("delay:" + t[:24].decode(), b'specification "s" { timeout 1 script login { delay ' + t + b" } }\n" + DEVNODE)
+    add("stale-errno-long-max", b'specification "s" { timeout 0.' + b"0" * 400 + b'1 script login { send "x\\n" expect "(x)" setplugstate $9223372036854775807 $1 } }\n' + DEVNODE)   # F30
     add("pingperiod", b'specification "s" { timeout 1 pingperiod 0.5 script login { send "x" } script ping { send "p" } }\n' + DEVNODE)
     add("regex-bad-unused", b'specification "u" { script login { expect "(" } }\n' + ok)
     add("regex-bad", b'specification "s" { script login { expect "(" } }\n' + DEVNODE)
@@ -542,6 +543,24 @@ def mutation_cases(rng, bases, n):
     return out
 
 
+def truncation_cases(bases, step=None, per_file=None):
+    """systematic truncation of the mutated file of every base case: every [step]-th byte, or [per_file] evenly
+    spaced offsets"""
+    out = []
+    for b in bases:
+        t = b.get("target", 0)
+        data = b["files"][t][1]
+        if step:
+            offs = range(step, len(data), step)
+        else:
+            offs = sorted(set(len(data) * k // (per_file + 1) for k in range(1, per_file + 1)))
+        for o in offs:
+            files = list(b["files"])
+            files[t] = (files[t][0], data[:o])
+            out.append(dict(tag="mut:truncate-at", base=b["tag"], files=files))
+    return out
+
+
 def load_corpus():
     out = []
     for p in sorted(glob.glob(os.path.join(CORPUS, "*.json"))):
@@ -653,6 +672,20 @@ def first_diff(a, b):
     return (-1, "", "")
 
 
+def category(tag):
+    if tag.startswith("mut:"):
+        k = tag.split(":")[1].split("+")[0]
+        return "mut:" + ("long-string" if k.startswith("long-string") else k)
+    for p in ("corpus", "shipped", "random"):
+        if tag.startswith(p):
+            return p
+    if tag.startswith("include-"):
+        return "include-graph"
+    if tag.startswith(("timeout:", "delay:", "stmt:", "tcp:", "tcp-flags:", "tcpwrap:", "loglevel:")):
+        return "directed:" + tag.split(":")[0]
+    return "directed"
+
+
 def nontrivial(r):
     """a case is non-trivial when the real parser got past the first token: it produced at least 3 tokens, or
     entered the string / include machinery, or was accepted"""
@@ -708,12 +741,13 @@ def run(ctx, V):
     bases = base_cases(files)
     quick = ctx.tier == "quick"
     cases = load_corpus() + directed_cases() + include_cases(rng) + bases
+    cases += truncation_cases(bases, per_file=4) if quick else truncation_cases(bases, step=97)
     cases += mutation_cases(rng, bases, 1500 if quick else 30000)
     cases += random_cases(rng, 300 if quick else 6000)
     V.rule = ("corpus + directed boundary cases (string lengths 8189..8200/20000, every escape, numeric limits, every refusal class, "
               "include graphs: chains 0..12, self, cycle, diamond, missing, names of 0/1/2 bytes, EOF inside string/include state) + "
               "one accepted configuration around every shipped .dev/.conf file + mutations of those (delete/duplicate/swap/replace/insert "
-              "tokens, delete/duplicate/swap sections, truncation, spliced arbitrary bytes incl. NUL and >= 0x80, long strings, odd numbers) + "
+              "tokens, delete/duplicate/swap sections, truncation (random and systematic: 4 offsets per shipped file in quick, every 97th byte in thorough), spliced arbitrary bytes incl. NUL and >= 0x80, long strings, odd numbers) + "
               "random byte/token soups; each case = real conf_init (+ first connect when accepted) and real token dump vs the extracted model; "
               "non-trivial = the real lexer returned >= 3 tokens or the configuration was accepted; distinct by hash of all file contents")
     ctx.log("cases: %d" % len(cases))
@@ -726,7 +760,7 @@ def run(ctx, V):
             c = r["case"]
             canon = hashlib.sha1(b"\0".join(n + b"\0" + d for n, d in c["files"])).hexdigest()
             V.case(canon, nontrivial=nontrivial(r))
-            V.count("kind:" + c["tag"].split(":")[0] + (":" + c["tag"].split(":")[1].split("+")[0].split("-")[0] if c["tag"].startswith("mut:") else ""))
+            V.count("kind:" + category(c["tag"]))
             V.count("impl:" + impl_class(r["conf"], msgs))
             if r["mconf"] is not None and "site" in r["mconf"]:
                 V.count("model-site:%s/%s" % (r["mconf"]["class"], r["mconf"]["site"]))
@@ -761,7 +795,7 @@ def run(ctx, V):
         "environment oracles of the model (host-range expansion = hostlist.c, regcomp, getaddrinfo restricted to numeric hosts/services by the harness, stat) are answered by the real functions",
         "bison's own stack limit (YYMAXDEPTH 10000: `memory exhausted` -> parse error) and exhaustion of file descriptors by > ~1000 include directives (the included FILE is never fclose()d) are outside the model; both end in exit 1 with a diagnostic",
         "cli_start (binding the listen addresses) is not run by the harness; a bad `listen` string makes powermand exit with a diagnostic there",
-        "an exact LONG_MAX match position under a stale errno == ERANGE, and the values stored in struct timeval (IEEE rounding of strtod) are not modelled; only the accept/refuse behaviour of _strtolong/_strtodouble is",
+        "the values stored in struct timeval (IEEE rounding of strtod) are not modelled; only the accept/refuse behaviour of _strtolong/_strtodouble is (errno is cleared before strtol/strtod since fix F30: without it an exact LONG_MAX match position is refused after an earlier strtod underflow)",
     ]
 
 
